@@ -13,6 +13,7 @@ Does NOT decide rotation as an observed history (argued: FIFO + R10.3 + R10.5) n
 from ..sym import show, walk_expr
 from ..common import short, trait_impls, coroutine_of, is_some_payload_of
 from .. import pathq
+from . import fq
 from .c07 import socket_coroutine, wire_writes, msg_mutations, is_param_msg
 
 EXPLANATION = __doc__
@@ -90,7 +91,7 @@ def analyse_sender(f, rep, co, label, push_before_write_ok=False, param_pred=Non
             # R16.4), or the table removal together with QueueInner::remove, is required
             if split_halves:
                 both = any("peer_disconnected" in e.name for e in forgets) or (
-                    bool(forgets) and any(ev.kind == "call" and short(ev.name) == "remove" and "QueueInner" in ev.name for ev in p.events[wi:]))
+                    bool(forgets) and any(ev.kind == "call" and short(ev.name) == "remove" and fq.inner_name(f) in ev.name for ev in p.events[wi:]))
                 rep.check(both, "R10.3", "R10.3|%s|write-error-releases-both-halves" % label,
                           "%s: after a failed write the peer's table entry AND its queued read half are released (%s)" % (label, [short(e.name) for e in forgets]), co.loc())
             rep.check(ok_push and not later_pops and bool(forgets), "R10.3", "R10.3|%s|write-error" % label,
@@ -131,13 +132,15 @@ def run(ctx, f, rep):
     rr = [b for b in f.bodies if b.j.get("coroutine_kind") and not (f.body(b.j.get("parent")) is not None and f.body(b.j.get("parent")).j.get("impl_trait"))
           and "::test" not in b.path and scope_calls(b, "pop")]
     rep.floor("R10.1", "shared round-robin sender (async fn popping the SegQueue rotation)", len(rr), 1)
+    # the sender's own name (it is found by what it does, not by what it is called)
+    rr_names = {(f.body(co.j.get("parent")).j.get("name") if f.body(co.j.get("parent")) is not None else None) or co.path.split("::")[-2] for co in rr}
     for co in rr:
         # does the backend this sender belongs to keep the read halves in a separate receive queue?
         owner = f.body(co.j.get("parent")) if co.j.get("parent") else None
         split = False
         if owner is not None:
             self_ty = (owner.j.get("impl_self") or owner.path.rsplit("::", 1)[0]).split("::")[-1]
-            split = any(p_.split("::")[-1] == self_ty and any("QueueInner" in x["ty"] for x in a["variants"][0]["fields"]) for p_, a in f.adts.items() if a["kind"] == "Struct")
+            split = any(p_.split("::")[-1] == self_ty and any(fq.inner_name(f) in x["ty"] for x in a["variants"][0]["fields"]) for p_, a in f.adts.items() if a["kind"] == "Struct")
         analyse_sender(f, rep, co, "send_round_robin", split_halves=split,
                        param_pred=lambda e: any(isinstance(x, tuple) and x and x[0] == "field" and x[1] == ("arg", 1) for x in walk_expr(e)))
     co = socket_coroutine(f, "SocketSend", "send", "ReqSocket")
@@ -174,12 +177,12 @@ def run(ctx, f, rep):
             continue
         n = 0
         for p in pathq.paths(f, co):
-            for i, ev in pathq.calls(p, "send_round_robin"):
+            for i, ev in pathq.calls(p, *sorted(rr_names)):
                 n += 1
                 item = ev.args[1]
                 rep.check(item[0] == "agg" and item[3] == "Message" and is_param_msg(item) and not msg_mutations(p, is_param_msg, upto=i), "R10.6",
                           "R10.6|%s|delegates" % suffix, "%s::send passes Message::Message(caller's message) unmodified to the round-robin sender" % suffix, co.loc(ev.bb))
             if p.end == "return" and pathq.ret_kind(p) == "Ok":
-                okd = pathq.ok_decided(p, lambda x: pathq.is_poll_of(x, "send_round_robin"))
+                okd = pathq.ok_decided(p, lambda x: any(pathq.is_poll_of(x, nm) for nm in rr_names))
                 rep.check(okd, "R10.6", "R10.6|%s|propagates" % suffix, "%s::send reports success only when the round-robin sender did" % suffix, co.loc())
         rep.floor("R10.6", "%s: calls to send_round_robin" % suffix, n, 1)
